@@ -611,7 +611,11 @@ impl Compiler {
 
                 let pos_start_function = self.instructions.len();
 
-                self.compile_block_statement(body)?;
+                // 'stop' and 'volgende' inside the function body must not see the loops around the function
+                let enclosing_loops = std::mem::take(&mut self.loop_contexts);
+                let result = self.compile_block_statement(body);
+                self.loop_contexts = enclosing_loops;
+                result?;
 
                 let body_is_empty = self.instructions.len() == pos_start_function;
                 if !body_is_empty && self.last_instruction_is(OpCode::Pop) {
